@@ -42,6 +42,11 @@ CLAIMED["C11"] = dict(
    text="Every list-library procedure is run on every tuple of its argument domain (all proper lists up to length 3 (thorough 4) over three atoms, nested and improper variants, non-lists, all indices -1..len+1, ticking procedure arguments), on all two-level compositions of ten list functions and on a ladder of lengths up to 1000 (3000); results and tick traces (once per element, in order) must equal refsem's list functions; where the reference raises an error the implementation must raise one.",
    note="trusted: refsem list library (R7RS 6.4; folds in minischeme argument order); R7RS-unspecified argument combinations are excluded and counted",
    design="7/C11")
+CLAIMED["C04"] = dict(
+   technique="bounded exhaustive sweep: every rule set of bounded size against every use of bounded size through the real expander, judged by an independent syntax-rules matcher",
+   text="Every argument pattern up to the node bound (variables, _, literal identifier, literal data, sub-lists and vectors nested <= 2 with optional final ellipsis) with every canonical template and both literal sets, all ordered pairs (thorough: triples) of small rules, against every use up to the node bound: the rule set is installed through the real parser, each use is pushed through the real Transformer::transform (and, for the smallest rules, evaluated as (m ...) text) and must yield the first matching rule's instantiated template or a syntax error, as the reference matcher written from R7RS 4.3.2 says.",
+   note="trusted: refsyn (self-tested on R7RS examples); pairs on which zero-or-more and one-or-more ellipsis semantics differ are outside the property's class and only counted",
+   design="7/C04")
 NOT_YET = "check not built yet (build in progress, see DESIGN.md section 12)"
 NA = {}
 
